@@ -1,17 +1,17 @@
 SPECIFICATION MCSpec
 CONSTANTS
-  NP = 2
-  K = 2
-  MaxSend = 1
-  MaxDup = 1
-  MaxRestart = 1
+  NP = 1
+  K = 3
+  MaxSend = 2
+  MaxDup = 0
+  MaxRestart = 0
   Idem = 1
-  MaxOps = 11
-  MaxRetry = 0
+  MaxOps = 8
+  MaxRetry = 1
   Stale = FALSE
-  Outcomes = {"sent"}
-  MppRetry = {0}
-  Bug = "none"
+  Outcomes = {"sent", "wip", "ref"}
+  MppRetry = {0, 1}
+  Bug = "reuse_held"
 CONSTRAINT Bound
 VIEW View
 INVARIANT NeverBoth
